@@ -19,6 +19,16 @@ class _NdMeta(type(_np.ndarray)):
     def __subclasscheck__(cls, sub):
         return issubclass(sub, (_np.ndarray, SymArray))
 
+    # library code also tests the exact type: `type(x) == np.ndarray`, `type(x) in (np.ndarray, RaggedArray)`
+    def __eq__(cls, other):
+        return other is cls or other is _np.ndarray or other is SymArray
+
+    def __ne__(cls, other):
+        return not cls.__eq__(other)
+
+    def __hash__(cls):
+        return hash(_np.ndarray)
+
 
 class ndarray(_np.ndarray, metaclass=_NdMeta):
     pass
